@@ -164,3 +164,18 @@ Proof.
   exists (ls_exts st), (ls_modular st). unfold parse_walk. rewrite Hp, Hw, He, Hm, Hsem. reflexivity.
 Qed.
 Print Assumptions canonical_document_denotes.
+
+(* ... AND SO DOES EVERY OTHER LAYOUT WITH THE SAME TOKENS: any non-empty run of blanks and tabs where the canonical text
+   has a blank, any line break (line feed, then line feeds, blanks and tabs: indentation, blank lines) where it has one *)
+Theorem every_layout_denotes v ts L :
+  std_version v = true -> Forall type_lex_ok ts -> Forall type_ok ts -> distinct_decls (doc_file v ts) ->
+  Forall2 relay (kts (ctoks_doc v ts)) L ->
+  let s := concat (map snd L) in
+  snd (lex s) = [] /\ exists exts md, parse_walk (fst (lex s)) = DOk (sem_file (doc_file v ts)) exts md.
+Proof.
+  intros Hv Hlex Hok Hdist HL s. destruct (every_layout_reads_back v ts L Hv Hlex Hok HL) as (Herr & _ & f' & Hp & Hf). fold s in Herr, Hp.
+  split; [exact Herr|]. destruct (doc_sem f' v ts Hf Hlex) as (Hsem & Hwf & Hd).
+  destruct (walk_is_sem f' (Hwf (type_ok_wf ts Hok v)) (Hd Hdist)) as (st & Hw & He & Hm).
+  exists (ls_exts st), (ls_modular st). unfold parse_walk. rewrite Hp, Hw, He, Hm, Hsem. reflexivity.
+Qed.
+Print Assumptions every_layout_denotes.
